@@ -17,7 +17,7 @@ def build_spec():
     return spec
 
 
-MODULES = ["c_auxiliary", "c_node", "c_exit_arrival", "c_simulation"]
+MODULES = ["c_auxiliary", "c_assumed", "c_node", "c_exit_arrival", "c_simulation", "c_dists"]
 
 
 def add(spec, target, **kw):
